@@ -42,6 +42,17 @@ def run(args):
                 continue
             failures.append({"request": " ".join(p[:6]), "edited_source_hex": p[6] if len(p) > 6 else "-", "real": real,
                              "why": f"layout edit `{ek}` changed the syntax tree (or made the file unparseable)"})
+        cut_cases = [c for c in cases if c[0].startswith("c10 cut ")]
+        hist["cut_no_final_newline"] = {"same": 0, "both-reject": 0, "other": 0}
+        for req, real in cut_cases:
+            p = req.split(" ")
+            ctx.nontrivial.add(hash(req))
+            if real in ("same", "both-reject"):
+                hist["cut_no_final_newline"][real] += 1
+                continue
+            hist["cut_no_final_newline"]["other"] += 1
+            failures.append({"request": " ".join(p[:5]), "edited_source_hex": p[5] if len(p) > 5 else "-", "real": real,
+                             "why": "the text up to the end of this line parses differently with and without its final newline"})
         for f in failures[:5]:
             ctx.violation("oracle", f)
         ctx.samples = [{"request": r[:300], "real": o[:200]} for r, o in lex_cases[:1] + edit_cases[:3] + edit_cases[-3:]]
@@ -49,5 +60,5 @@ def run(args):
                               "edit_cases": len(edit_cases), "harness_meta": metas}
     ctx.conclude_broken_obligations(failures)
     return ctx.finish(
-        rule="every .incn file of the repository that parses + synthetic nested programs; per file: each of 10 layout edit kinds applied at seeded positions (AST compared with the original) and the edited text re-lexed against the layout model; distinct = distinct (file, edit, position) / source",
+        rule="every .incn file of the repository that parses + synthetic nested programs; per file: each of 10 layout edit kinds applied at seeded positions (AST compared with the original) and the edited text re-lexed against the layout model; plus the text cut at the end of seeded logical lines, parsed with and without its final newline (every kind of last statement); distinct = distinct (file, edit, position) / source",
         extra_cov=getattr(ctx, "coverage_extra", None))
